@@ -234,6 +234,44 @@ def const_val(t):
     return NOVAL
 
 
+def possible_consts(t, depth=0):
+    """the finite set of constants a term can evaluate to (const, conditional of consts, the element of a loop over a literal
+    tuple / list, a component of such an element), or None when it is not such a term"""
+    if not isinstance(t, T) or depth > 12:
+        return None
+    while t.op == 'refine':
+        t = t.args[0]
+    v = const_val(t)
+    if v is not NOVAL:
+        return {v}
+    if t.op == 'gamma':
+        a, b = possible_consts(t.args[1], depth + 1), possible_consts(t.args[2], depth + 1)
+        return None if a is None or b is None else a | b
+    if t.op == 'elem' and isinstance(t.args[0], T) and t.args[0].op in ('tuple', 'list'):
+        out = set()
+        for x in t.args[0].args[0]:
+            r = possible_consts(x, depth + 1)
+            if r is None:
+                return None
+            out |= r
+        return out
+    if t.op == 'unpack' and t.args[3] is None and isinstance(t.args[0], T):
+        src = t.args[0]
+        if src.op == 'elem' and isinstance(src.args[0], T) and src.args[0].op in ('tuple', 'list'):
+            out = set()
+            for x in src.args[0].args[0]:
+                if not (isinstance(x, T) and x.op in ('tuple', 'list') and len(x.args[0]) == t.args[2]):
+                    return None
+                r = possible_consts(x.args[0][t.args[1]], depth + 1)
+                if r is None:
+                    return None
+                out |= r
+            return out
+        if src.op in ('tuple', 'list') and len(src.args[0]) == t.args[2]:
+            return possible_consts(src.args[0][t.args[1]], depth + 1)
+    return None
+
+
 def call_parts(t):
     """(callee description, positional terms, keyword dict) of a call term; callee description is a dotted lib
     name, a repo qualname, 'method:<name>' (with receiver prepended to positionals) or None"""
